@@ -35,33 +35,33 @@ Proof. intros A l H. destruct (exists_last H) as [l0 [y E]]. eauto. Qed.
 
 Section TL.
 Variable T : Type.
-Variable c : cfg.
+Variable tlf : tl_factory.
 
 Notation tlv := (tlval T).
 
 (* every tree the reader has stored, in arrival order *)
 Definition flat (tls : list tlv) : list T :=
-  match c_tlfac c with
+  match tlf with
   | TLFixed => tl_trees (tl_at T tls 0)
   | TLNew => concat (map tl_trees tls)
   end.
 
 (* tb = the current trees_block *)
 Definition wf (tls : list tlv) (reg : list nat) (tb : option nat) : Prop :=
-  match c_tlfac c with
+  match tlf with
   | TLFixed => (1 <= length tls)%nat /\ (tb = None \/ tb = Some O)
   | TLNew => reg = seq 0 (length tls) /\ (tb = None \/ (tb = Some (length tls - 1)%nat /\ tls <> []))
   end.
 
 Lemma wf_forget : forall tls reg tb, wf tls reg tb -> wf tls reg None.
-Proof. unfold wf. intros tls reg tb. destruct (c_tlfac c); intros [H1 H2]; split; auto. Qed.
+Proof. unfold wf. intros tls reg tb. destruct tlf; intros [H1 H2]; split; auto. Qed.
 
 Lemma new_tree_list_wf : forall tls reg title i tls' reg',
-  wf tls reg None -> new_tree_list T c tls reg title = (i, tls', reg') ->
+  wf tls reg None -> new_tree_list T tlf tls reg title = (i, tls', reg') ->
   wf tls' reg' (Some i) /\ flat tls' = flat tls.
 Proof.
   unfold wf, flat, new_tree_list. intros tls reg title i tls' reg' H E.
-  destruct (c_tlfac c); destruct H as [H1 _].
+  destruct tlf; destruct H as [H1 _].
   - inversion E; subst; clear E. split.
     + split.
       * rewrite app_length, seq_app. simpl. reflexivity.
@@ -82,7 +82,7 @@ Lemma tl_append_wf : forall tls reg i t,
   wf (tl_append T tls i t) reg (Some i) /\ flat (tl_append T tls i t) = flat tls ++ [t].
 Proof.
   unfold wf, flat, tl_append. intros tls reg i t H.
-  destruct (c_tlfac c).
+  destruct tlf.
   - destruct H as [Hreg [Hn|[Htb Hne]]]; [discriminate|].
     inversion Htb; subst i; clear Htb.
     destruct (exists_last' _ tls Hne) as [l0 [y E]]. subst tls.
@@ -102,7 +102,7 @@ Lemma tl_add_comments_wf : forall tls reg i cs,
   wf (tl_add_comments T tls i cs) reg (Some i) /\ flat (tl_add_comments T tls i cs) = flat tls.
 Proof.
   unfold wf, flat, tl_add_comments. intros tls reg i cs H.
-  destruct (c_tlfac c).
+  destruct tlf.
   - destruct H as [Hreg [Hn|[Htb Hne]]]; [discriminate|].
     inversion Htb; subst i; clear Htb.
     destruct (exists_last' _ tls Hne) as [l0 [y E]]. subst tls.
